@@ -12,12 +12,12 @@ RULES={
   ('KF-C01-NOVALUE', r'multiple-value|\(no value\) used as value|used as value'),
   ('KF-C01-TYPEOPERAND', r'is not an expression|is not a type|must be called|not an expression'),
   ('KF-C01-UNUSEDEXPR', r'is not used'),
-  ('KF-C01-SLICE', r'cannot slice|3-index slice|invalid slice ind|slice of unaddressable'),
-  ('KF-C01-INDEX', r'access: .*\[|index .* must be integer|invalid argument: index|cannot index|out of bounds|must be integer'),
   ('KF-C01-SHIFT', r'shift|shifted operand'),
+  ('KF-C01-SLICE', r'cannot slice|3-index slice|invalid slice ind|slice of unaddressable'),
+  ('KF-C01-INDEX', r'index .* must be integer|invalid argument: index|cannot index|out of bounds'),
   ('KF-C01-CONSTREPR', r'overflows|truncated|constant .* overflow|cannot use .* constant|not representable|constant'),
   ('KF-C01-CONV', r'cannot convert|conv: '),
-  ('KF-C01-COMPARE', r'cannot compare|can only be compared to nil|incomparable|compare: |switchcase: |mismatched types|duplicate case'),
+  ('KF-C01-COMPARE', r'cannot compare|can only be compared to nil|incomparable|compare: |switchcase: |duplicate case'),
   ('KF-C01-SEND-RANGE', r'assign-send|send|range|cannot range|receive from'),
   ('KF-C01-BUILTIN', r'builtin: '),
   ('KF-C01-OPERATOR', r'binop: |unop: |operator .* not defined|invalid operation'),
